@@ -110,17 +110,126 @@ var blockBodies = []string{"", "x", "simple text", "\n  indented\n    more\n  ba
 	"with \\\"\"\" escaped", "quote\" inside", "two\"\" inside", "\r\n  crlf\r\n  lines\r\n", "\r  cr\r  only", "tab\n\tindent\n\t\ttwo", "ünï\n  世界",
 	"back\\slash \\n not escape", "   \n   \n  only blank start\n   ", "trailing space  \n  x", "ab\n  c", "\n   a\n \n   b", "#not a comment\n  ,", "\\\"\"\"\\\"\"\""}
 
-func (g *sgen) blockToken() string { return `"""` + g.pick(blockBodies) + `"""` }
+func (g *sgen) blockToken() string {
+	if g.chance(50) {
+		return `"""` + g.composeBlock() + `"""`
+	}
+	return `"""` + g.pick(blockBodies) + `"""`
+}
 
 func (g *sgen) stringLit() string {
 	if g.chance(25) {
 		return g.blockToken()
 	}
+	if g.chance(50) {
+		return g.stringToken(g.composeString())
+	}
 	return g.stringToken(g.pick(HostileStrings))
+}
+
+// runeClasses: the code points strings are composed from, by the way printers, lexers and
+// escapers may treat them differently.
+var runeClasses = [][]rune{
+	{'a', 'Z', '0', ' ', '_', 'n', 'u'},
+	{'"', '\\', '/', '#', ',', ']', '}', '{', '$', '!', '\''},
+	{'\t', '\n', '\r', '\b', '\f'},
+	{0x00, 0x01, 0x07, 0x0B, 0x1B, 0x1F, 0x7F},
+	{0x80, 0x85, 0x9F, 0xA0, 0xAD},
+	{0x2028, 0x2029, 0x200B, 0x200E, 0x202E, 0xFEFF, 0x061C},
+	{0xD7FF, 0xE000, 0xF8FF, 0xFFFD, 0xFFFE, 0xFFFF, 0xFDD0},
+	{0x10000, 0x1F600, 0x1D11E, 0x2F800},
+	{0xE0001, 0xE0020, 0xF0000, 0xFFFFD, 0x100000, 0x10FFFF, 0x3FFFD, 0x1FFFE},
+	{0x0301, 0x3099, 0xFE0F},
+	{0xFC, 0xDF, 0x4E16, 0x05D0},
+}
+
+func (g *sgen) composeString() string {
+	var sb strings.Builder
+	for i, n := 0, g.n(1, 6); i < n; i++ {
+		cl := runeClasses[rnd.Uniform(g.t, len(runeClasses), "runeClass")]
+		sb.WriteRune(cl[rnd.Uniform(g.t, len(cl), "rune")])
+	}
+	return sb.String()
+}
+
+var blockPieces = []string{"x", "text here", `\"""`, `"`, `""`, `\`, `\n`, "\u00fcn\u00ef", "#c", "trailing  ", ",", "\U0001F600", "\U000F0000", "\u2028", "\ufeff", "a\tb", "\u007f", "\u0085"}
+
+// composeBlock builds the raw body of a block string from lines with drawn indentation,
+// content and line terminators (LF, CRLF, CR), including blank and whitespace-only lines.
+func (g *sgen) composeBlock() string {
+	var sb strings.Builder
+	for i, n := 0, g.n(1, 5); i < n; i++ {
+		if i > 0 {
+			sb.WriteString(g.pick([]string{"\n", "\n", "\r\n", "\r"}))
+		}
+		for j, k := 0, g.n(0, 4); j < k; j++ {
+			sb.WriteString(g.pick([]string{" ", " ", " ", "\t"}))
+		}
+		if g.chance(75) {
+			sb.WriteString(g.pick(blockPieces))
+			if g.chance(30) {
+				sb.WriteString(" ")
+				sb.WriteString(g.pick(blockPieces))
+			}
+		}
+	}
+	body := sb.String()
+	// a body ending in a quote or a backslash would run into the closing delimiter
+	for strings.HasSuffix(body, `"`) || strings.HasSuffix(body, `\`) {
+		body += " z"
+	}
+	return body
 }
 
 var intLits = []string{"0", "-0", "1", "-1", "42", "2147483647", "-2147483648", "2147483648", "9007199254740993", "123456789012345678901234567890"}
 var floatLits = []string{"0.0", "-0.0", "1.5", "-1.5e3", "1e10", "1E10", "1e+9", "1E-9", "0.0e-0", "6.02e23", "1.7976931348623157e309", "0e0", "12.000"}
+
+// composeNumber spells a grammatical IntValue (frac = false) or FloatValue from its parts.
+func (g *sgen) composeNumber(float bool) string {
+	var sb strings.Builder
+	if g.chance(35) {
+		sb.WriteByte('-')
+	}
+	digits := func(lo, hi int) {
+		for i, n := 0, g.n(lo, hi); i < n; i++ {
+			sb.WriteByte(byte('0' + rnd.Uniform(g.t, 10, "digit")))
+		}
+	}
+	if g.chance(25) {
+		sb.WriteByte('0')
+	} else {
+		sb.WriteByte(byte('1' + rnd.Uniform(g.t, 9, "lead")))
+		digits(0, []int{0, 2, 9, 11, 20, 40}[rnd.Uniform(g.t, 6, "intLen")])
+	}
+	if !float {
+		return sb.String()
+	}
+	form := rnd.Uniform(g.t, 3, "floatForm") // fraction, exponent, both
+	if form != 1 {
+		sb.WriteByte('.')
+		digits(1, 6)
+	}
+	if form != 0 {
+		sb.WriteString(g.pick([]string{"e", "E"}))
+		sb.WriteString(g.pick([]string{"", "+", "-"}))
+		digits(1, 3)
+	}
+	return sb.String()
+}
+
+func (g *sgen) intLit() string {
+	if g.chance(50) {
+		return g.composeNumber(false)
+	}
+	return g.pick(intLits)
+}
+
+func (g *sgen) floatLit() string {
+	if g.chance(50) {
+		return g.composeNumber(true)
+	}
+	return g.pick(floatLits)
+}
 
 func (g *sgen) value(isConst bool) {
 	g.depth++
@@ -130,9 +239,9 @@ func (g *sgen) value(isConst bool) {
 	case r < 12 && !isConst:
 		g.emit("$", g.anyName())
 	case r < 27:
-		g.emit(g.pick(intLits))
+		g.emit(g.intLit())
 	case r < 40:
-		g.emit(g.pick(floatLits))
+		g.emit(g.floatLit())
 	case r < 58:
 		g.emit(g.stringLit())
 	case r < 66:
@@ -153,7 +262,7 @@ func (g *sgen) value(isConst bool) {
 		}
 		g.emit("}")
 	default:
-		g.emit(g.pick(intLits))
+		g.emit(g.intLit())
 	}
 }
 
@@ -466,7 +575,10 @@ func Mutate(t *rapid.T, toks []string) []string {
 		return out
 	}
 	i := rnd.Uniform(t, len(out), "mutAt")
-	alphabet := []string{"!", "$", "(", ")", "...", ":", "=", "@", "[", "]", "{", "|", "}", "&", "a", "on", "1", "1.5", `"s"`, `"""b"""`, "query", "fragment", "type", "true", "null"}
+	alphabet := []string{"!", "$", "(", ")", "...", ":", "=", "@", "[", "]", "{", "|", "}", "&", "a", "on", "1", "1.5", `"s"`, `"""b"""`, "query", "fragment", "type", "true", "null",
+		// lexemes that are not tokens, or almost tokens
+		"01", "1.", ".5", "1e", "1e+", "-", "1.e5", "0x1F", "1_0", "-a", "1a", "1.5.5", "1e5e5", "\u0661", `"unterminated`, `"bad \q escape"`, `"\u12"`, `"\uZZZZ"`, `"\uD83D\uDE00"`, `"""unterminated`, `"""a\"""`,
+		"\ufeff", "?", "~", "%", "^", "*", "\u0000", "\u00a0", "\u2026", "..", "....", "\u2028", "$$", "@@", "__", "_", "é"}
 	switch rnd.Uniform(t, 5, "mutKind") {
 	case 0: // delete
 		out = append(out[:i], out[i+1:]...)
